@@ -640,6 +640,7 @@ class IENAN(IENA):
         """
 
         super(IENAN, self).unpack(buf)
+        self.parameters = []
 
         # According to the IENA spec,the N2 field contains the numner of data words
         dataword_count = self.keystatus & 0x7
